@@ -30,8 +30,13 @@ TRUSTED = [
     "translator harness/translate/geo3glue.py (fail-closed): the bond test of guess_connectivity's loop body, the entry expression of "
     "distance_matrix and the bounds test + len(m)->kernel chain of measure_coordinates are translated into Gen/GeoGlue.v and proved "
     "equal to the hand models (C18_generated_glue_is_model); the loop skeletons (tail slices x+1:, index shift, append order, "
-    "default_connectivity post-processing, single/many wrapping, val[0]) are checked structurally against the source and otherwise "
-    "tied by differential execution",
+    "default_connectivity post-processing, single/many wrapping, val[0]) and every statement around the loops (coordinates = "
+    "np.atleast_2d(coordinates), num_coords, the single/many wrapping and return of measure_coordinates; geometry = "
+    "np.asarray(geometry, dtype=float).reshape(-1, 3) and the radii lookup with 1.8 for unknown symbols in guess_connectivity; the "
+    "shape assertion, allocation and return of distance_matrix) are pinned statement by statement against the source and otherwise "
+    "tied by differential execution; the single/many wrapping of measure_coordinates (probe index, ret[k]) and the default_connectivity "
+    "comprehension are translated into measure_wrap_gen / attach_default_gen (theorems C18_measure_single_and_many_forms, "
+    "C18_default_connectivity_keeps_bonds; exercised by the oracle, not by a model comparison)",
     "libm/numpy arccos and arctan2 are trusted to approximate Coq's acos and the atan2 of Common/Geo3R.v (specification proved "
     "there: C18_atan2_spec); each run checks sin/cos residuals <= 1e-9 of what numpy returned",
     "the executable Q instance Common/Geo3Q.v (square roots truncated at 1e-16) is used only to run the models; comparison "
@@ -39,6 +44,10 @@ TRUSTED = [
     "covalent radii are taken from covalentradii.get (property C17) and passed to the connectivity model as data",
 ]
 ASSUMPTIONS = [
+    "the points are handed over in every legal container / memory layout (C / Fortran order, transposed (3,n) view, non-contiguous "
+    "and negative-stride views, big-endian, nested lists / tuples / lists of rows, integer arrays, flat (3n,) for connectivity); numpy "
+    "computes float32 and int16 inputs in binary32: those are judged by the oracle with tolerance 1e-3 (worst seen 2.2e-5; a re-cut "
+    "layout is off by O(1)) and not fed to the model; int8 arrays are not streamed (numpy's einsum overflows in int8)",
     "point arrays have shape (3,) or (n,3); coordinates are finite; non-degenerate point sets (no coincident points, no collinear "
     "triple where an angle plane is needed) for the textbook/range statements",
     "connectivity cases keep every squared distance at least 1e-9 (relative) away from its squared threshold, except the boundary "
@@ -174,13 +183,13 @@ def finite(vals):
 DENS = [1, 1, 2, 2, 4, 5, 8, 10, 16]
 
 
-def rnd_coord(rng, lim=10):
-    d = rng.choice(DENS)
+def rnd_coord(rng, lim=10, grid=None):
+    d = 1 if grid == "int" else rng.choice([1, 2, 4, 8, 16]) if grid == "dyadic" else rng.choice(DENS)
     return Fr(rng.randint(-lim * d, lim * d), d)
 
 
-def rnd_point(rng, lim=10):
-    return tuple(rnd_coord(rng, lim) for _ in range(3))
+def rnd_point(rng, lim=10, grid=None):
+    return tuple(rnd_coord(rng, lim, grid) for _ in range(3))
 
 
 def nondegenerate(P4):
@@ -198,9 +207,9 @@ def nondegenerate(P4):
     return True
 
 
-def rnd_quad(rng):
+def rnd_quad(rng, grid=None):
     while True:
-        P = [rnd_point(rng) for _ in range(4)]
+        P = [rnd_point(rng, 10, grid) for _ in range(4)]
         if nondegenerate(P):
             return P
 
@@ -223,9 +232,109 @@ def impl():
     return compute_distance, compute_angle, compute_dihedral, measure_coordinates, distance_matrix, guess_connectivity
 
 
-def np_in(P, form):
+# ---- input classes: the same points handed over in every legal container / memory layout ----------------------------
+# "c" C-ordered float64 (n,3); "f" Fortran-ordered; "t" the transposed view of a (3,n) array built from the x, y, z columns;
+# "slice" a non-contiguous window of a larger array; "rev" a view with negative strides; "be" big-endian float64; "list" / "tuple"
+# nested Python sequences; "rows" a list of 1-D arrays; "f32" / "f32f" float32 (C / Fortran; only for exactly representable
+# coordinates); "i64" / "i32" / "i16" / "bei4" integer arrays (only for integer coordinates); "flat" the (3n,) form (connectivity only)
+LAYOUTS_ND = ["f", "t", "slice", "rev", "be", "f32", "f32f", "i64", "i32", "i16", "bei4"]
+LAYOUTS_ANY = LAYOUTS_ND + ["list", "tuple", "rows"]
+LOW_PRECISION = ("f32", "f32f", "i16")     # numpy computes these in binary32 (sqrt of an int16 array is float32)
+TOL32 = 1e-3        # binary32 inputs: coordinates up to ~25 carry 1.5e-6, bonds >= 0.5, |sin| >= 0.2 -> angles within ~1e-4 (worst seen 2.2e-5); a re-cut layout is off by O(1)
+
+
+def lay_feasible(P, layout):
+    if layout in ("i64", "i32", "i16", "bei4"):
+        return all(Fr(c).denominator == 1 for p in P for c in p)
+    if layout in ("f32", "f32f"):
+        return all(Fr(float(np.float32(float(Fr(c))))) == Fr(c) for p in P for c in p)
+    return True
+
+
+def lay(a, layout):
+    """the C-ordered float64 array `a` ((n,3) or (3,)) as the container / layout `layout`; the VALUES are unchanged"""
+    a = np.array(a, dtype=float)
+    if layout in (None, "c"):
+        return a
+    one = a.ndim == 1
+    if layout == "f":
+        return a[::1] if one else np.asfortranarray(a)
+    if layout == "t":
+        return a if one else np.array([a[:, k].copy() for k in range(3)]).T
+    if layout == "slice":
+        if one:
+            big = np.full(9, 99.5)
+            v = big[1:7:2]
+        else:
+            big = np.full((2 * a.shape[0] + 1, 7), 99.5)
+            v = big[1::2, 2:5]
+        v[...] = a
+        return v
+    if layout == "rev":
+        if one:
+            return a[::-1].copy()[::-1]
+        return a[::-1, ::-1].copy()[::-1, ::-1]
+    if layout == "be":
+        return a.astype(">f8")
+    if layout == "list":
+        return a.tolist()
+    if layout == "tuple":
+        return tuple(a.tolist()) if one else tuple(tuple(r) for r in a.tolist())
+    if layout == "rows":
+        return a.tolist() if one else [np.array(r, dtype=float) for r in a]
+    if layout == "f32":
+        return a.astype(np.float32)
+    if layout == "f32f":
+        return a.astype(np.float32) if one else np.asfortranarray(a.astype(np.float32))
+    if layout in ("i64", "i32", "i16", "bei4"):
+        dt = {"i64": np.int64, "i32": np.int32, "i16": np.int16, "bei4": ">i4"}[layout]
+        b = a.astype(dt)
+        return b if (one or layout != "i32") else np.asfortranarray(b)
+    if layout == "flat":
+        return a.ravel()
+    raise ValueError(layout)
+
+
+def same_values(obj, a):
+    """the laid-out object still denotes the points of the C-ordered array a"""
+    try:
+        b = np.array([np.asarray(r, dtype=float) for r in obj], dtype=float) if isinstance(obj, (list, tuple)) else np.asarray(obj, dtype=float)
+        return b.reshape(np.shape(a)).shape == np.shape(a) and bool(np.array_equal(b.reshape(np.shape(a)), a))
+    except Exception:
+        return False
+
+
+def case_layout(case, P=None, k=None):
+    """layout of a case (of its k-th array), "c" where the points cannot be written in it exactly"""
+    L = case.get("layouts")[k] if (k is not None and case.get("layouts")) else case.get("layout")
+    L = L or "c"
+    if P is not None and not lay_feasible(P, L):
+        return "c"
+    return L
+
+
+def low_precision(case):
+    return any(L in LOW_PRECISION for L in [case.get("layout")] + list(case.get("layouts") or []))
+
+
+def pick_layout(rng, allowed, p_plain=0.45):
+    return "c" if rng.random() < p_plain else rng.choice(allowed)
+
+
+def grid_for(*layouts):
+    if any(L in ("i64", "i32", "i16", "bei4") for L in layouts):
+        return "int"
+    if any(L in ("f32", "f32f") for L in layouts):
+        return "dyadic"
+    return None
+
+
+def np_in(P, form, layout="c"):
     a = to_np(P)
-    return a[0] if form == "1d" else a
+    a = a[0] if form == "1d" else a
+    if layout in (None, "c") or not lay_feasible(P, layout):
+        return a
+    return lay(a, layout)
 
 
 # ---- kind "single": one quadruple, everything the property says about it -------------------------
@@ -253,7 +362,9 @@ def oracle_single(case):
     def bad(what, obs):
         fails.append({"what": what, "observed": obs})
 
-    A = [np_in([p], form) for p in P]
+    L = case_layout(case, P)
+    tol = TOL32 if L in LOW_PRECISION else TOL
+    A = [np_in([p], form, L) for p in P]
     od = call(cd, A[0], A[1])
     if case.get("omit_kw") and not dg:
         # radians are the kernels' default: the keyword is left out
@@ -274,11 +385,11 @@ def oracle_single(case):
     a = rad(oa[1], dg)[0]
     t = rad(ot[1], dg)[0]
     rd, ra, rt = textbook(P)
-    if not (abs(d - rd) <= TOL * (1 + rd)) or d < 0:
+    if not (abs(d - rd) <= tol * (1 + rd)) or d < 0:
         bad("distance differs from |p1-p2|", [d, rd])
-    if not ang_close(a, ra) or not (0.0 <= a <= math.pi + 1e-15):
+    if not ang_close(a, ra, tol) or not (0.0 <= a <= math.pi + (1e-6 if tol > TOL else 1e-15)):
         bad("angle differs from the textbook angle at p2 / outside [0,pi]", [a, ra])
-    if not ang_close(t, rt) or not (-math.pi - 1e-15 <= t <= math.pi + 1e-15):
+    if not ang_close(t, rt, tol) or not (-math.pi - (1e-6 if tol > TOL else 1e-15) <= t <= math.pi + (1e-6 if tol > TOL else 1e-15)):
         bad("dihedral differs from atan2(|b2| b1.(b2xb3), (b1xb2).(b2xb3)) / outside [-pi,pi]", [t, rt])
     # degrees flag: only the factor 180/pi
     oa2 = call(ca, A[0], A[1], A[2], degrees=not dg)
@@ -288,31 +399,32 @@ def oracle_single(case):
             bad(f"{nm}: degrees={not dg} raised {o2[1]}", o2)
             continue
         deg, r_ = (o1[1][0], o2[1][0]) if dg else (o2[1][0], o1[1][0])
-        if not abs(float(deg) - float(r_) * 180.0 / math.pi) <= 1e-12 * (1 + abs(float(deg))):
+        if not abs(float(deg) - float(r_) * 180.0 / math.pi) <= (1e-12 if tol == TOL else 1e-5) * (1 + abs(float(deg))):
             bad(f"{nm}: degrees is not radians*180/pi", [float(deg), float(r_)])
     # listed backwards
     ob = call(ct, A[3], A[2], A[1], A[0], degrees=dg)
-    if ob[0] != "Ok" or not ang_close(rad(ob[1], dg)[0], t):
+    if ob[0] != "Ok" or not ang_close(rad(ob[1], dg)[0], t, tol):
         bad("dihedral changes when the four points are listed backwards", [ob, t])
     ob = call(ca, A[2], A[1], A[0], degrees=dg)
-    if ob[0] != "Ok" or not ang_close(rad(ob[1], dg)[0], a):
+    if ob[0] != "Ok" or not ang_close(rad(ob[1], dg)[0], a, tol):
         bad("angle changes when the three points are listed backwards", [ob, a])
     ob = call(cd, A[1], A[0])
-    if ob[0] != "Ok" or abs(float(ob[1][0]) - d) > TOL * (1 + d):
+    if ob[0] != "Ok" or abs(float(ob[1][0]) - d) > tol * (1 + d):
         bad("distance is not symmetric", [ob, d])
     # rigid motion / reflection
     mo = case.get("motion")
     if mo:
         Q = move(P, mo)
-        B = [np_in([p], form) for p in Q]
+        LQ = L if L not in ("i64", "i32", "i16", "bei4") else "c"     # the moved points are not integers; float32 rounds them (1e-7)
+        B = [lay(np_in([p], form), LQ) for p in Q]
         od2, oa3, ot3 = call(cd, B[0], B[1]), call(ca, B[0], B[1], B[2], degrees=dg), call(ct, B[0], B[1], B[2], B[3], degrees=dg)
         kind = "reflection" if mo.get("reflect") else "rotation+translation"
-        if od2[0] != "Ok" or abs(float(od2[1][0]) - d) > TOL * (1 + d):
+        if od2[0] != "Ok" or abs(float(od2[1][0]) - d) > tol * (1 + d):
             bad(f"distance changes under {kind}", [od2, d])
-        if oa3[0] != "Ok" or not ang_close(rad(oa3[1], dg)[0], a):
+        if oa3[0] != "Ok" or not ang_close(rad(oa3[1], dg)[0], a, tol):
             bad(f"angle changes under {kind}", [oa3, a])
         want = -t if mo.get("reflect") else t
-        if ot3[0] != "Ok" or not ang_close(rad(ot3[1], dg)[0], want):
+        if ot3[0] != "Ok" or not ang_close(rad(ot3[1], dg)[0], want, tol):
             bad("dihedral does not change sign under reflection" if mo.get("reflect") else "dihedral changes under rotation+translation",
                 [ot3, want])
     return fails, obs
@@ -322,6 +434,8 @@ def terms_single(case, obs):
     """Coq cases for chk_distance / chk_angle / chk_dihedral / chk_textbook"""
     P = json_pts(case["pts"])
     form, dg = case["form"], case["degrees"]
+    if case_layout(case, P) in LOW_PRECISION:
+        return {}                   # binary32 arithmetic: judged by the oracle (1e-3), outside the model's 1e-9
     A = [carr([p], form) for p in P]
     od, oa, ot = obs["dist"], obs["ang"], obs["dih"]
     out = {}
@@ -357,7 +471,12 @@ def oracle_batched(case):
     fails = []
     k = {"distance": 2, "angle": 3, "dihedral": 4}[fn]
     ins = [shape_rows(cols[i], shapes[i]) for i in range(k)]
-    A = [np_in(P, form) for P, form in ins]
+    Ls = [case_layout(case, ins[i][0], i) for i in range(k)]
+    tol = TOL32 if any(L in LOW_PRECISION for L in Ls) else 1e-9
+    A = [np_in(P, form, L) for (P, form), L in zip(ins, Ls)]
+    for i in range(k):
+        if not same_values(A[i], np_in(*ins[i])):
+            fails.append({"what": "harness: laid-out array does not hold the points", "observed": Ls[i]})
     f = {"distance": cd, "angle": ca, "dihedral": ct}[fn]
     kw = {} if fn == "distance" else {"degrees": dg}
     out = call(f, *A, **({} if (case.get("omit_kw") and not dg) else kw))
@@ -383,7 +502,7 @@ def oracle_batched(case):
         fails.append({"what": f"batched compute_{fn} raises {out[1]} on {n} rows although every row alone is fine", "observed": repr(out)})
     else:
         got = [float(v) for v in np.atleast_1d(out[1])]
-        if len(got) != n or any(not (abs(g - w) <= 1e-9 * (1 + abs(w))) for g, w in zip(got, want)):
+        if len(got) != n or any(not (abs(g - w) <= tol * (1 + abs(w))) for g, w in zip(got, want)):
             fails.append({"what": f"batched compute_{fn} differs from its rows evaluated one by one", "observed": {"batched": got, "rows": want}})
     return fails, obs
 
@@ -395,6 +514,8 @@ def terms_batched(case, obs):
     A = [carr(*shape_rows(cols[i], shapes[i])) for i in range(k)]
     out = obs["out"]
     if out[0] == "Ok" and not finite(out[1]):
+        return {}
+    if any(case_layout(case, shape_rows(cols[i], shapes[i])[0], i) in LOW_PRECISION for i in range(k)):
         return {}
     if fn == "distance":
         return {"chk_distance": f"({A[0]}, {A[1]}, {cexp(out, lambda v: clist(np.atleast_1d(v), cfl))})"}
@@ -411,20 +532,30 @@ def oracle_measure(case):
     ms, dg, via = case["ms"], case["degrees"], case["via"]
     fails = []
     coords = to_np(P)
+    L = case_layout(case, P)
+    if via == "molecule" and L == "tuple":
+        L = "list"          # Molecule(geometry=<tuple>) raises AttributeError in contiguize_from_fragment_pattern (geom.copy()); not C18's business
+    given = lay(coords, L)                          # the same points in the case's container / memory layout
+    if not same_values(given, coords):
+        fails.append({"what": "harness: laid-out array does not hold the points", "observed": L})
     if via == "molecule":
         from qcelemental.models import Molecule
-        mol = Molecule(symbols=["He"] * len(P), geometry=coords, nonphysical=True)
+        mol = Molecule(symbols=["He"] * len(P), geometry=given, nonphysical=True)
         coords = np.array(mol.geometry, dtype=float)
+        if not np.array_equal(coords, to_np(P)):
+            fails.append({"what": "Molecule(geometry=<the points in another layout>) stores other points", "observed": [L, coords.tolist()]})
         out = call(mol.measure, ms) if dg else call(mol.measure, ms, degrees=False)
         ref = call(mc, coords, ms, degrees=dg)
         same = out[0] == ref[0] and (np.array_equal(np.array(out[1], dtype=float), np.array(ref[1], dtype=float)) if out[0] == "Ok" else out[1] == ref[1])
         if not same:
             fails.append({"what": "Molecule.measure differs from measure_coordinates on its geometry", "observed": [repr(out), repr(ref)]})
     elif case.get("omit_kw") and not dg:
-        out = call(mc, coords, ms)                  # measure_coordinates defaults to radians
+        out = call(mc, given, ms)                   # measure_coordinates defaults to radians
     else:
-        out = call(mc, coords, ms, degrees=dg)
-    obs = {"out": out, "coords": coords}
+        out = call(mc, given, ms, degrees=dg)
+    obs = {"out": out, "coords": coords, "low_precision": L in LOW_PRECISION and via != "molecule"}
+    # the rows the index-based form must be measuring: row x of the C-ordered copy, in the dtype numpy gives the container
+    rowsrc = coords if via == "molecule" else np.ascontiguousarray(np.array(given))
     n = len(P)
     single = len(ms) > 0 and isinstance(ms[0], int)
     mlist = [ms] if single else ms
@@ -454,7 +585,7 @@ def oracle_measure(case):
         fails.append({"what": "measure: wrong number of results", "observed": repr(out)})
         return fails, obs
     for m, v in zip(mlist, vals):
-        rows = [coords[x] for x in m]
+        rows = [rowsrc[x] for x in m]
         if len(m) == 2:
             w = cd(*rows)[0]
         elif len(m) == 3:
@@ -463,6 +594,26 @@ def oracle_measure(case):
             w = ct(*rows, degrees=dg)[0]
         if not (float(v) == float(w) or (math.isnan(float(v)) and math.isnan(float(w)))):
             fails.append({"what": "index-based measurement differs from the row-wise function on the same rows", "observed": [m, float(v), float(w)]})
+            continue
+        # and from the row-wise function on the plain float64 rows (binary32 containers: within 1e-3)
+        rows = [to_np(P)[x] for x in m]
+        w = float(cd(*rows)[0] if len(m) == 2 else ca(*rows, degrees=dg)[0] if len(m) == 3 else ct(*rows, degrees=dg)[0])
+        tol = TOL32 * (180.0 / math.pi if (dg and len(m) > 2) else 1.0) if obs["low_precision"] else 1e-12
+        if math.isfinite(w) and not abs(float(v) - w) <= tol * (1 + abs(w)) and not (tol and abs(abs(float(v) - w) - (360.0 if dg else 2 * math.pi)) <= tol * 400):
+            fails.append({"what": "index-based measurement of the points handed over as " + L + " differs from the row-wise function on the plain float64 rows",
+                          "observed": [m, float(v), w]})
+    # asked again right away for the same points and indices in the other unit: only the factor 180/pi on angles and dihedrals
+    out2 = call(mol.measure, ms, degrees=not dg) if via == "molecule" else call(mc, given, ms, degrees=not dg)
+    if out2[0] != "Ok":
+        fails.append({"what": f"measure with degrees={not dg} raised {out2[1]} right after the same call with degrees={dg} succeeded", "observed": repr(out2)})
+    else:
+        vals2 = [out2[1]] if single else list(out2[1])
+        rt = 1e-5 if obs["low_precision"] else 1e-12
+        for m, v, v2 in zip(mlist, vals, vals2):
+            f = 1.0 if len(m) == 2 else (math.pi / 180.0 if dg else 180.0 / math.pi)
+            if math.isfinite(float(v)) and not abs(float(v2) - float(v) * f) <= rt * (1 + abs(float(v2))):
+                fails.append({"what": "index-based form: the same measurement in degrees and in radians (asked one after the other) differs by more than the factor 180/pi",
+                              "observed": [m, float(v), float(v2)]})
     return fails, obs
 
 
@@ -471,6 +622,8 @@ def terms_measure(case, obs):
     ms, dg = case["ms"], case["degrees"]
     single = len(ms) > 0 and isinstance(ms[0], int)
     mlist = [ms] if single else ms
+    if obs.get("low_precision"):
+        return {}
     if out[0] == "Ok":
         vals = [out[1]] if single else list(out[1])
         if not finite(vals):
@@ -493,9 +646,11 @@ def terms_measure(case, obs):
 def oracle_distmat(case):
     cd, _, _, _, dm, _ = impl()
     a, b = json_pts(case["a"]), json_pts(case["b"])
-    out = call(dm, to_np(a), to_np(b))
+    La, Lb = case_layout(case, a, 0), case_layout(case, b, 1)
+    low = La in LOW_PRECISION or Lb in LOW_PRECISION
+    out = call(dm, lay(to_np(a), La), lay(to_np(b), Lb))
     fails = []
-    obs = {"out": out}
+    obs = {"out": out, "low_precision": low}
     if out[0] != "Ok" or np.shape(out[1]) != (len(a), len(b)):
         fails.append({"what": "distance_matrix: raised / wrong shape", "observed": repr(out)})
         return fails, obs
@@ -504,12 +659,29 @@ def oracle_distmat(case):
             w = fsqrt(fdot(fsub(p, q), fsub(p, q)))
             # relative (1e-9) plus the binary64 resolution of the coordinates (|x| <= 10: a few 1e-15): a distance of 1e-9 returned
             # as 0, or taken to the wrong point of a nearly identical set, is a difference
-            if abs(float(out[1][i][j]) - w) > TOL * w + 1e-13:
+            if abs(float(out[1][i][j]) - w) > (TOL32 * (1 + w) if low else TOL * w + 1e-13):
                 fails.append({"what": "distance_matrix entry differs from |a_i - b_j|", "observed": [i, j, float(out[1][i][j]), w]})
                 return fails, obs
+    # the same a against another b (every row shifted by (1, -2, 1/2)) right after, and the first call again
+    sh = (Fr(1), Fr(-2), Fr(1, 2))
+    b2 = [tuple(c + t for c, t in zip(q, sh)) for q in b]
+    out2 = call(dm, lay(to_np(a), La), lay(to_np(b2), Lb if lay_feasible(b2, Lb) else "c"))
+    if out2[0] != "Ok" or np.shape(out2[1]) != (len(a), len(b2)):
+        fails.append({"what": "distance_matrix(a, b + shift) right after distance_matrix(a, b): raised / wrong shape", "observed": repr(out2)})
+    else:
+        for i, p in enumerate(a):
+            for j, q in enumerate(b2):
+                w = fsqrt(fdot(fsub(p, q), fsub(p, q)))
+                if abs(float(out2[1][i][j]) - w) > (TOL32 * (1 + w) if low else TOL * w + 1e-13):
+                    fails.append({"what": "distance_matrix(a, b + shift) asked right after distance_matrix(a, b): entry differs from |a_i - b_j|",
+                                  "observed": [i, j, float(out2[1][i][j]), w]})
+                    return fails, obs
+    out3 = call(dm, lay(to_np(a), La), lay(to_np(b), Lb))
+    if out3[0] != "Ok" or not np.array_equal(out3[1], out[1]):
+        fails.append({"what": "distance_matrix(a, b) gives another answer when asked again", "observed": repr(out3)[:300]})
     if len(a) == len(b):
-        d = cd(to_np(a), to_np(b))
-        if not np.allclose(np.diag(out[1]), d, rtol=1e-9, atol=1e-300):
+        d = cd(lay(to_np(a), La), lay(to_np(b), Lb))
+        if not np.allclose(np.diag(out[1]), d, rtol=TOL32 if low else 1e-9, atol=TOL32 if low else 1e-300):
             fails.append({"what": "diagonal of distance_matrix differs from compute_distance", "observed": [np.diag(out[1]).tolist(), d.tolist()]})
     return fails, obs
 
@@ -517,7 +689,7 @@ def oracle_distmat(case):
 def terms_distmat(case, obs):
     a, b = json_pts(case["a"]), json_pts(case["b"])
     out = obs["out"]
-    if out[0] != "Ok":
+    if out[0] != "Ok" or obs.get("low_precision"):
         return {}
     return {"chk_distmat": f"({clist(a, cvec)}, {clist(b, cvec)}, {clist(out[1], lambda r: clist(r, cfl))})"}
 
@@ -572,7 +744,9 @@ def oracle_conn(case):
     kw = {} if (case.get("omit_kw") and thr == 1.2) else {"threshold": thr}       # 1.2 is the documented default
     if dc is not None:
         kw["default_connectivity"] = dc
-    out = call(gc, np.array(syms), to_np(P), **kw)
+    L = case_layout(case, P)
+    symc = case.get("symbols_as") or "array"
+    out = call(gc, np.array(syms) if symc == "array" else list(syms) if symc == "list" else tuple(syms), lay(to_np(P), L), **kw)
     obs["out"] = out
     if out[0] != "Ok":
         fails.append({"what": f"guess_connectivity raised {out[1]}", "observed": repr(out)})
@@ -588,17 +762,32 @@ def oracle_conn(case):
             fails.append({"what": "default_connectivity not attached to every bond", "observed": repr(got)})
     elif any(len(x) != 2 for x in got):
         fails.append({"what": "bonds are not (i, j) pairs", "observed": repr(got)})
+    # the same geometry right after with another threshold / with the symbols shifted by one atom, each judged on its own; then the
+    # first call again
+    thr2 = 1.5 if thr != 1.5 else 0.8
+    syms2 = list(syms[1:]) + list(syms[:1])
+    for nm, t_, s_ in (("another threshold", thr2, syms), ("the symbols shifted by one atom", thr, syms2)):
+        w_, m_ = conn_reference(P, radii_of(s_), t_)
+        if m_ < 1e-9:
+            continue
+        o_ = call(gc, np.array(s_), lay(to_np(P), L), threshold=t_)
+        if o_[0] != "Ok" or [(int(x[0]), int(x[1])) for x in o_[1]] != w_:
+            fails.append({"what": f"guess_connectivity on the same geometry with {nm}, asked right after: not the pairs closer than the scaled radii sum",
+                          "observed": {"got": repr(o_)[:300], "want": w_, "threshold": t_, "symbols": s_}})
+    o_ = call(gc, np.array(syms), lay(to_np(P), L), **kw)
+    if o_[0] != "Ok" or [tuple(x) for x in o_[1]] != got:
+        fails.append({"what": "guess_connectivity gives another answer when asked again", "observed": [repr(o_)[:300], repr(got)[:300]]})
     mo = case.get("motion")
     if mo:
         Q = move(P, mo)
         _, m2 = conn_reference(Q, radii, thr)
-        o2 = call(gc, np.array(syms), to_np(Q), threshold=thr)
+        o2 = call(gc, np.array(syms), lay(to_np(Q), L if L not in ("i64", "i32", "i16", "bei4", "f32", "f32f") else "f"), threshold=thr)
         if m2 >= 1e-9 and (o2[0] != "Ok" or [(int(x[0]), int(x[1])) for x in o2[1]] != pairs):
             fails.append({"what": "guess_connectivity changes under a rigid motion", "observed": repr(o2)})
     perm = case.get("perm")
     if perm:
         # atom k of the reordered molecule is atom perm[k] of the original
-        o3 = call(gc, np.array([syms[k] for k in perm]), to_np([P[k] for k in perm]), threshold=thr)
+        o3 = call(gc, np.array([syms[k] for k in perm]), lay(to_np([P[k] for k in perm]), L), threshold=thr)
         if o3[0] != "Ok":
             fails.append({"what": "guess_connectivity raised after reordering atoms", "observed": repr(o3)})
         else:
@@ -633,7 +822,9 @@ def oracle_collinear(case):
     if case["via"] == "angle":
         rows = [json_pts(r) for r in case["rows"]]
         cols = [[r[i] for r in rows] for i in range(3)]
-        A = [np_in(c, case["form"]) for c in cols]
+        A = [np_in(c, case["form"], case_layout(case, [p for r in rows for p in r])) for c in cols]
+        if case_layout(case, [p for r in rows for p in r]) in LOW_PRECISION:
+            A = [np_in(c, case["form"]) for c in cols]          # nearly collinear triples are ill-conditioned in binary32: not streamed
         out = call(ca, *A, degrees=dg)
         obs["out"] = out
         if out[0] != "Ok":
@@ -655,7 +846,10 @@ def oracle_collinear(case):
         return fails, obs
     # a linear molecule in general orientation through measure_coordinates / Molecule.measure
     P = json_pts(case["coords"])
-    coords = to_np(P)
+    L = case_layout(case, P)
+    if case["via"] == "molecule" and L == "tuple":
+        L = "list"
+    coords = lay(to_np(P), L if L not in LOW_PRECISION else "c")
     ms = case["ms"]
     if case["via"] == "molecule":
         from qcelemental.models import Molecule
@@ -742,13 +936,16 @@ def gen_cases(ctx):
                   "coords": z((-4, -4, -4), (-2, -2, -2), (0, 0, 0), (3, 3, 3)), "ms": [[0, 1, 2], [2, 0, 1], [0, 1, 2, 3], [0, 3]]})
     # single rows
     for _ in range(12000 if T else 700):
-        P = rnd_quad(rng)
+        L = pick_layout(rng, LAYOUTS_ANY, 0.6)
+        P = rnd_quad(rng, grid_for(L))
         cases.append({"kind": "single", "stream": "single", "pts": pts_json(P), "form": rng.choice(["1d", "2d"]),
-                      "degrees": rng.random() < 0.5, "motion": rnd_motion(rng), "omit_kw": rng.random() < 0.5})
+                      "degrees": rng.random() < 0.5, "motion": rnd_motion(rng), "omit_kw": rng.random() < 0.5, "layout": L})
     # batched / mixed shapes
     for _ in range(5000 if T else 400):
         n = rng.choice([1, 2, 2, 3, 3, 4, 5, 7])
-        quads = [rnd_quad(rng) for _ in range(n)]
+        r = rng.random()
+        Ls = ["c"] * 4 if r < 0.4 else [rng.choice(LAYOUTS_ANY)] * 4 if r < 0.7 else [pick_layout(rng, LAYOUTS_ANY, 0.3) for _ in range(4)]
+        quads = [rnd_quad(rng, grid_for(*Ls)) for _ in range(n)]
         cols = [[q[i] for q in quads] for i in range(4)]
         fn = rng.choice(["distance", "angle", "angle", "dihedral"])
         r = rng.random()
@@ -759,7 +956,7 @@ def gen_cases(ctx):
         else:
             shapes = [rng.choice(["n", "k2", "k3"]) for _ in range(4)]
         cases.append({"kind": "batched", "stream": "batched", "fn": fn, "degrees": rng.random() < 0.5, "shapes": shapes,
-                      "cols": [pts_json(c) for c in cols], "omit_kw": rng.random() < 0.5})
+                      "cols": [pts_json(c) for c in cols], "omit_kw": rng.random() < 0.5, "layouts": Ls})
     # measure_coordinates / Molecule.measure
     import itertools
 
@@ -775,8 +972,9 @@ def gen_cases(ctx):
         return True
     for _ in range(6000 if T else 350):
         n = rng.randint(4, 7)
+        L = pick_layout(rng, LAYOUTS_ANY, 0.35)
         while True:
-            P = [rnd_point(rng, 6) for _ in range(n)]
+            P = [rnd_point(rng, 6, grid_for(L)) for _ in range(n)]
             if general_position(P):
                 break
 
@@ -793,17 +991,18 @@ def gen_cases(ctx):
         else:
             ms = [rnd_m() for _ in range(rng.choice([0, 1, 2, 3, 3]))]
         cases.append({"kind": "measure", "stream": "measure", "coords": pts_json(P), "ms": ms, "degrees": rng.random() < 0.5,
-                      "via": "molecule" if rng.random() < 0.3 else "function", "omit_kw": rng.random() < 0.5})
+                      "via": "molecule" if rng.random() < 0.3 else "function", "omit_kw": rng.random() < 0.5, "layout": L})
         # history: the very same measurement list on two more coordinate sets of the same size, back to back (a result memoised
         # on the indices, or any state left behind by the previous call, shows here)
         if rng.random() < 0.15 and ms:
             for _h in range(2):
                 while True:
-                    P2 = [rnd_point(rng, 6) for _ in range(n)]
+                    P2 = [rnd_point(rng, 6, grid_for(L)) for _ in range(n)]
                     if general_position(P2):
                         break
                 cases.append({"kind": "measure", "stream": "measure-history", "coords": pts_json(P2), "ms": ms,
-                              "degrees": cases[-1]["degrees"], "via": cases[-1]["via"], "omit_kw": cases[-1]["omit_kw"]})
+                              "degrees": cases[-1]["degrees"], "via": cases[-1]["via"], "omit_kw": cases[-1]["omit_kw"],
+                              "layout": rng.choice([L, L, "c", "f", "t"])})
     # straight / folded-back / nearly collinear triples (lattice and random directions), scalar and batched; linear molecules
     def rnd_dir():
         if rng.random() < 0.5:
@@ -831,7 +1030,8 @@ def gen_cases(ctx):
         k = rng.choice([1, 1, 1, 2, 3, 5])
         rows = [rnd_line_triple() for _ in range(k)]
         cases.append({"kind": "collinear", "stream": "collinear", "via": "angle", "rows": [pts_json(r) for r in rows],
-                      "form": "1d" if (k == 1 and rng.random() < 0.5) else "2d", "degrees": rng.random() < 0.5})
+                      "form": "1d" if (k == 1 and rng.random() < 0.5) else "2d", "degrees": rng.random() < 0.5,
+                      "layout": pick_layout(rng, LAYOUTS_ANY, 0.6)})
     for _ in range(1500 if T else 120):
         n = rng.randint(3, 6)
         d = rnd_dir()
@@ -844,12 +1044,13 @@ def gen_cases(ctx):
         for _m in range(rng.randint(1, 4)):
             ms.append(rng.sample(range(n), rng.choice([2, 3, 3, 3, 4]) if n >= 4 else rng.choice([2, 3, 3])))
         cases.append({"kind": "collinear", "stream": "collinear", "via": rng.choice(["function", "function", "molecule"]),
-                      "coords": pts_json(P), "ms": ms, "degrees": rng.random() < 0.5})
+                      "coords": pts_json(P), "ms": ms, "degrees": rng.random() < 0.5, "layout": pick_layout(rng, LAYOUTS_ANY, 0.5)})
     # distance_matrix
     for _ in range(600 if T else 60):
-        a = [rnd_point(rng) for _ in range(rng.randint(1, 5))]
-        b = [rnd_point(rng) for _ in range(len(a) if rng.random() < 0.5 else rng.randint(1, 5))]
-        cases.append({"kind": "distmat", "stream": "distmat", "a": pts_json(a), "b": pts_json(b)})
+        Ls = [pick_layout(rng, LAYOUTS_ND, 0.4), pick_layout(rng, LAYOUTS_ND, 0.4)]
+        a = [rnd_point(rng, 10, grid_for(*Ls)) for _ in range(rng.randint(1, 5))]
+        b = [rnd_point(rng, 10, grid_for(*Ls)) for _ in range(len(a) if rng.random() < 0.5 else rng.randint(1, 5))]
+        cases.append({"kind": "distmat", "stream": "distmat", "a": pts_json(a), "b": pts_json(b), "layouts": Ls})
     # two point sets of the same shape that are (nearly) the same: b = a, b = a moved by tiny amounts over many decades (dyadic
     # coordinates and dyadic displacements 2^-10 .. 2^-40, i.e. 1e-3 .. 1e-12, exact in binary64 and in the model), b = a permuted,
     # b = a with one row replaced; a fast path that takes b for a shows here
@@ -878,14 +1079,16 @@ def gen_cases(ctx):
         else:
             b = list(a)
             b[rng.randrange(na)] = dy_point()
-        cases.append({"kind": "distmat", "stream": "distmat-near-copy", "a": pts_json(a), "b": pts_json(b), "mode": mode})
+        cases.append({"kind": "distmat", "stream": "distmat-near-copy", "a": pts_json(a), "b": pts_json(b), "mode": mode,
+                      "layouts": [pick_layout(rng, ["f", "t", "slice", "rev", "be"], 0.5), pick_layout(rng, ["f", "t", "slice", "rev", "be"], 0.5)]})
     # connectivity
     for _ in range(8000 if T else 450):
-        n = rng.randint(1, 15)
+        n = rng.randint(1, 15) if rng.random() > 0.03 else 0          # now and then no atoms at all
         box = rng.choice([2, 3, 4, 6])
+        L = pick_layout(rng, LAYOUTS_ANY + ["flat", "flat"], 0.4) if n else rng.choice(["c", "flat", "list"])
         P = []
         while len(P) < n:
-            p = rnd_point(rng, box)
+            p = rnd_point(rng, box, grid_for(L) if box > 2 else None)
             if all(fdot(fsub(p, q), fsub(p, q)) > 0 for q in P):
                 P.append(p)
         syms = [rng.choice(ELEMENTS) for _ in range(n)]
@@ -894,7 +1097,8 @@ def gen_cases(ctx):
         cases.append({"kind": "conn", "stream": "connectivity", "symbols": syms, "geom": pts_json(P),
                       "thr": rng.choice([1.2, 1.2, 1.0, 0.8, 1.5, 2.0, 0.0, -1.0, 1.25]),
                       "default": rng.choice([None, None, 1, 0, 2.5]),
-                      "motion": rnd_motion(rng, reflect=rng.random() < 0.3), "perm": perm, "omit_kw": rng.random() < 0.5})
+                      "motion": rnd_motion(rng, reflect=rng.random() < 0.3), "perm": perm, "omit_kw": rng.random() < 0.5,
+                      "layout": L, "symbols_as": rng.choice(["array", "array", "list", "tuple"])})
     # the boundary of the bond criterion: two atoms without a tabulated radius (1.8 each) exactly thr * (1.8 + 1.8) apart along a
     # coordinate axis, thr a power of two - every step of the criterion is exact in binary64 whatever the association, so the pair
     # is AT the scaled sum and must not be listed ("closer than"); one binary64 step nearer it must be
@@ -929,7 +1133,7 @@ def correspond(ctx):
                  "between consecutive bonds) x rational rigid motions / reflections from integer quaternions x 1-D / (1,3) / (n,3) "
                  "shapes x degrees flag; straight / folded-back / nearly collinear triples on lattice and random directions (scalar, batched, and "
                  "as linear molecules through measure_coordinates / Molecule.measure); measure index lists incl. negative, out-of-range and wrong-length; molecules of 1-15 atoms "
-                 "x thresholds for connectivity (keywords given or left to their defaults; the same measurement list on several coordinate sets back to back; distance_matrix also on nearly identical / identical / permuted point sets (dyadic displacements 1e-12..1e-3); pairs exactly at / one binary64 step inside the bond threshold). A case is non-trivial if the implementation returned a value (not an exception) "
+                 "x thresholds for connectivity; every point array also as Fortran-ordered / transposed (3,n) view / strided window / negative strides / big-endian / float32 / int64,32,16 / nested list / tuple / list of rows / flat (connectivity), symbols as array / list / tuple (keywords given or left to their defaults; the same measurement list on several coordinate sets back to back; distance_matrix also on nearly identical / identical / permuted point sets (dyadic displacements 1e-12..1e-3); pairs exactly at / one binary64 step inside the bond threshold). A case is non-trivial if the implementation returned a value (not an exception) "
                  "and the point set is non-degenerate; distinct = distinct inputs")
     cases = gen_cases(ctx)
     buckets = {k: [] for k in CHK_TY}
@@ -943,6 +1147,8 @@ def correspond(ctx):
         corr.hit("kind_" + case["kind"] + ("_" + case["fn"] if "fn" in case else ""))
         if case.get("omit_kw"):
             corr.hit("keyword_defaults_exercised")
+        for Lh in sorted(set([case.get("layout")] + list(case.get("layouts") or [])) - {None}):
+            corr.hit("layout_" + Lh + "_" + case["kind"])
         if case.get("boundary"):
             corr.hit("conn_boundary_" + case["boundary"])
         if case.get("mode"):
@@ -1042,7 +1248,9 @@ LEVEL_TEXT = (
     "v1.v1 operand); invariance under translation + orthogonal matrices (det 1 for the dihedral), y -> -y under det -1, reversal, "
     "degrees = radians*180/pi, batched distance/angle/dihedral = row-wise for every number of rows (C18_batched_full: arccos/arctan2/degrees "
     "included; C18_broadcast_distance: one row against n), measure index form = row-wise form, Molecule.measure = measure_coordinates in "
-    "degrees by default (C18_entry_point_defaults), distance_matrix entries, "
+    "degrees by default (C18_entry_point_defaults), one measurement returns the bare value of its row and a list the list of values "
+    "(C18_measure_single_and_many_forms, wrapper translated from the source), distance_matrix entries, default_connectivity never changes "
+    "the bonds (C18_default_connectivity_keeps_bonds), "
     "guess_connectivity = exactly the pairs i<j with d < thr(r_i+r_j) in lexicographic order, its rigid invariance and relabelling "
     "under reordering. Over the reals: angle = acos(textbook cosine) in [0,pi]; dihedral is an argument in [-pi,pi] of the textbook "
     "pair, and the only one in (-pi,pi] (atan2 defined from acos, specification proved); reflection negates it; the squared-distance bond decision equals the "
@@ -1059,5 +1267,6 @@ LEVEL_NOTE = (
     "C18_rigid_invariance; ranges -> C18_distance_R, C18_angle_R_range, C18_dihedral_R_is_textbook; reflection / reversal -> "
     "C18_reflection_flips_dihedral, C18_reversal_preserves_*; degrees -> C18_degrees; forms agree -> C18_batched_*, C18_batched_full, "
     "C18_broadcast_distance, C18_measure_index_form, C18_distance_matrix_entry, C18_entry_point_defaults; bonds -> C18_connectivity_spec, "
-    "_boundary_strict, _rigid_invariant, _relabel; only oracle: radii lookup, default_connectivity post-processing, binary64 effects. Part-B theorems depend on the Reals library axioms (sig_forall_dec, sig_not_dec, functional_extensionality_dep, classic); "
+    "_boundary_strict, _rigid_invariant, _relabel, C18_default_connectivity_keeps_bonds; single/many wrapping -> C18_measure_single_and_many_forms; only oracle: radii lookup, binary64 effects, the "
+    "container / memory layout / dtype of the point arrays (the model sees the points; every stream hands them over in 15 layouts). Part-B theorems depend on the Reals library axioms (sig_forall_dec, sig_not_dec, functional_extensionality_dep, classic); "
     "part A is closed.")
